@@ -32,7 +32,7 @@ def run(prop, tier, seed, out):
         cov["distinct_nontrivial"] = r["distinct_nontrivial"]
         cov["rule"] = ("one evaluation = one random member of a payload class (19 classes incl. NaN/Inf, control and non-UTF-8 strings, unsupported kinds, nesting) x node x "
                        "event-type class x predicate outcome, run through the real formatter and decoded; non-trivial = vectors whose JSON line is stored and decoded")
-        cov["samples"] = r["samples"]
+        cov["samples"] = r.get("samples") or []
         out.assumptions += ["encoding/json's decoder and an independent json.Marshal of the snapshot define the payload's JSON image"]
         if r["vectors"] < 100:
             raise Broken("too few vectors")
